@@ -59,51 +59,26 @@ Universe make_universe(const refv::Type& t, int b) {
   return u;
 }
 
-std::vector<Universe> make_universes(int nTypes3, bool with4) {
+std::vector<int> parse_list(const std::string& s) { std::vector<int> v; std::istringstream is(s); std::string t; while (std::getline(is, t, ',')) if (!t.empty()) v.push_back(atoi(t.c_str())); return v; }
+
+std::vector<Universe> make_universes(const std::string& u3, const std::string& u4) {
   using namespace refv;
   const Type E = TBase("E");
   const std::vector<Type> types = {
     E, TTuple({ E, E }), TBool(E), TBool(TTuple({ E, E })), TBool(TBool(E)), TTuple({ E, TBool(E) }),
     TBool(TTuple({ E, TBool(E) })), TBool(TBool(TBool(E))), TTuple({ TTuple({ E, E }), E }), TTuple({ TBool(E), TBool(E) }) };
   std::vector<Universe> us;
-  for (const auto& t : types) us.push_back(make_universe(t, 2));       // smallest universes first
-  for (int i = 0; i < nTypes3 && i < 6; ++i) us.push_back(make_universe(types[static_cast<size_t>(i)], 3));
-  if (nTypes3 > 6) { us.push_back(make_universe(types[8], 3)); us.push_back(make_universe(types[9], 3)); }
-  if (with4) { us.push_back(make_universe(types[0], 4)); us.push_back(make_universe(types[1], 4)); us.push_back(make_universe(types[2], 4)); us.push_back(make_universe(types[5], 4)); }
-  std::stable_sort(us.begin(), us.end(), [](const Universe& a, const Universe& b) { return a.n < b.n; });
+  for (const auto& t : types) us.push_back(make_universe(t, 2));
+  for (int i : parse_list(u3)) us.push_back(make_universe(types.at(static_cast<size_t>(i)), 3));
+  for (int i : parse_list(u4)) us.push_back(make_universe(types.at(static_cast<size_t>(i)), 4));
+  std::stable_sort(us.begin(), us.end(), [](const Universe& a, const Universe& b) { return a.n < b.n; });   // smallest universes first
   return us;
 }
 
 // ------------------------------------------------------------------------------------------------
 // building library values in several ways
-std::optional<StructuredData> lazy_sd(const Value& v, bool altParts);
-
-StructuredData alt_sd(const Value& v) {   // "the other way": lazy where possible, otherwise reversed insertion with a duplicate
-  if (v.isElem()) return Factory::Val(v.id);
-  if (v.isTuple()) { std::vector<StructuredData> c; for (const auto& x : v.items) c.push_back(alt_sd(x)); return Factory::Tuple(c); }
-  if (auto l = lazy_sd(v, true); l.has_value()) return *l;
-  std::vector<StructuredData> el;
-  for (size_t i = v.items.size(); i-- > 0;) el.push_back(alt_sd(v.items[i]));
-  if (!el.empty()) el.push_back(el.front());
-  return Factory::Set(el);
-}
-
-std::optional<StructuredData> lazy_sd(const Value& v, bool altParts) {
-  if (!v.isSet() || v.items.empty()) return std::nullopt;
-  bool allSets = true, allTuples = true;
-  for (const auto& e : v.items) { allSets = allSets && e.isSet(); allTuples = allTuples && e.isTuple() && e.items.size() == v.items[0].items.size(); }
-  if (allSets) {
-    const Value U = refv::reduce(v);
-    if (U.items.size() <= 20 && v.items.size() == (size_t{ 1 } << U.items.size())) return Factory::Boolean(altParts ? alt_sd(U) : refv::to_sd(U));
-    return std::nullopt;
-  }
-  if (allTuples) {
-    const size_t m = v.items[0].items.size(); size_t prod = 1; std::vector<StructuredData> parts;
-    for (size_t i = 0; i < m; ++i) { const Value f = refv::projection(v, { static_cast<int>(i + 1) }); prod *= f.items.size(); parts.push_back(altParts ? alt_sd(f) : refv::to_sd(f)); }
-    if (prod == v.items.size()) return Factory::Decartian(parts);
-  }
-  return std::nullopt;
-}
+using refv::alt_sd;
+using refv::lazy_sd;
 
 std::vector<std::vector<int>> orders(int k, int maxPerm) {
   std::vector<int> id(static_cast<size_t>(k)); std::iota(id.begin(), id.end(), 0);
@@ -111,7 +86,7 @@ std::vector<std::vector<int>> orders(int k, int maxPerm) {
   if (k <= maxPerm) { do out.push_back(id); while (std::next_permutation(id.begin(), id.end())); return out; }
   out.push_back(id);
   { auto r = id; std::reverse(r.begin(), r.end()); out.push_back(r); }
-  for (int s = 1; s < k && s <= 5; ++s) { auto r = id; std::rotate(r.begin(), r.begin() + s, r.end()); out.push_back(r); }
+  for (int s : { 1, k / 2 }) { auto r = id; std::rotate(r.begin(), r.begin() + s, r.end()); out.push_back(r); }
   { std::vector<int> r; for (int i = 0; i < k; i += 2) r.push_back(i); for (int i = 1; i < k; i += 2) r.push_back(i); out.push_back(r); }
   return out;
 }
@@ -128,12 +103,13 @@ struct Checker {
   Checker(const Checker&) = delete;
   ~Checker() { c.rep.count("checks", n); }
   void bad(const std::string& sig, const std::string& msg, const std::string& obs = "", const std::string& exp = "") { c.fail("C15:" + sig, msg, obs, exp); }
-  // value of a library object equals the model (by iteration) AND the library agrees through == with the canonical build
-  bool same_ok(const StructuredData& got, const Value& exp) {
+  // value of a library object equals the model (by iteration) AND the library's == / < agree with the enumerated build of that value
+  bool same_ok(const StructuredData& got, const Value& exp, const StructuredData* canon) {
     n += 2;
     if (!(refv::from_sd(got) == exp)) return false;
-    const auto canon = refv::to_sd(exp);
-    return got == canon && canon == got && !(got != canon) && !(got < canon) && !(canon < got);
+    if (canon != nullptr) return got == *canon && *canon == got && !(got < *canon);
+    const auto cn = refv::to_sd(exp);
+    return got == cn && cn == got && !(got < cn);
   }
   void same_report(const StructuredData& got, const Value& exp, const std::string& sig, const std::string& what) {
     const Value g = refv::from_sd(got);
@@ -141,9 +117,32 @@ struct Checker {
     else bad(sig + "-libeq", what + ": value is right by iteration but the library's == / < disagree with the enumerated build", got.ToString(), refv::str(exp));
   }
 };
-#define SAME(k, gotExpr, expExpr, sig, what) do { const StructuredData g__ = (gotExpr); const Value e__ = (expExpr); if (!(k).same_ok(g__, e__)) (k).same_report(g__, e__, sig, what); } while (0)
 // the message / observed / expected strings are only built when the check fails
 #define OK(k, cond, ...) do { ++(k).n; if (!(cond)) (k).bad(__VA_ARGS__); } while (0)
+#define SAME(k, gotExpr, expExpr, canonPtr, sig, what) do { const StructuredData g__ = (gotExpr); const Value e__ = (expExpr); if (!(k).same_ok(g__, e__, canonPtr)) (k).same_report(g__, e__, sig, what); } while (0)
+
+struct Reps { std::vector<std::pair<char, StructuredData>> r; };
+Reps reps_of(const Value& v) {
+  Reps x; x.r.emplace_back('c', refv::to_sd(v));
+  if (v.isSet()) { if (auto l = lazy_sd(v, false); l.has_value()) x.r.emplace_back('l', *l); else if (v.items.size() >= 2) x.r.emplace_back('a', alt_sd(v)); }
+  else if (v.isTuple()) x.r.emplace_back('a', alt_sd(v));
+  return x;
+}
+
+// per worker, per universe: library values that many cases need (built inside the first case that uses them)
+struct UCache {
+  const Universe* u{ nullptr };
+  std::vector<StructuredData> elemSd, elemAlt;
+  std::vector<Reps> reps;                      // small universes only
+  void elems(const Universe& uu) { if (u != &uu) { *this = UCache{}; u = &uu; } if (elemSd.empty()) for (const auto& e : uu.elems) { elemSd.push_back(refv::to_sd(e)); elemAlt.push_back(alt_sd(e)); } }
+  void all(const Universe& uu) { elems(uu); if (reps.empty()) for (size_t x = 0; x < uu.n; ++x) reps.push_back(reps_of(uu.value(x))); }
+  const StructuredData* canon_of(const Value& v) const {   // enumerated library value of a member of a small universe
+    if (reps.empty()) return nullptr;
+    const auto it = std::lower_bound(u->vals.begin(), u->vals.end(), v);
+    if (it == u->vals.end() || !(*it == v)) return nullptr;
+    return &reps[static_cast<size_t>(it - u->vals.begin())].r[0].second;
+  }
+};
 
 void build_ways(Checker& k, const Value& v, int maxPerm, std::vector<Way>& ways) {
   if (v.isElem()) {
@@ -165,7 +164,7 @@ void build_ways(Checker& k, const Value& v, int maxPerm, std::vector<Way>& ways)
   const auto ords = orders(n, maxPerm);
   for (size_t oi = 0; oi < ords.size(); ++oi) {
     std::vector<StructuredData> vec; std::string tag = "[";
-    for (int i : ords[oi]) { vec.push_back(el[static_cast<size_t>(i)]); tag += std::to_string(i); }
+    for (int i : ords[oi]) { vec.push_back(el[static_cast<size_t>(i)]); tag += std::to_string(i) + (n > 9 ? "." : ""); }
     tag += "]";
     ways.push_back({ "Set" + tag, Factory::Set(vec), oi == 0 ? 'c' : 'p' });
     if (n > 0) {
@@ -197,52 +196,60 @@ void build_ways(Checker& k, const Value& v, int maxPerm, std::vector<Way>& ways)
 
 // ------------------------------------------------------------------------------------------------
 // unary battery for value i of universe u
-void check_unary(Ctx& c, const Universe& u, size_t i, int maxPerm, int boolMax) {
+void check_unary(Ctx& c, const Universe& u, size_t i, int maxPerm, int boolMax, UCache& uc) {
   Checker k{ c };
   const Value v = u.value(i);
+  uc.elems(u);
   std::vector<Way> ways; build_ways(k, v, maxPerm, ways);
   c.rep.count("constructions", ways.size());
   const StructuredData& w0 = ways[0].sd;
   std::vector<Value> seq0;
   for (size_t wi = 0; wi < ways.size(); ++wi) {
-    const auto& w = ways[wi]; const std::string tag = std::string(1, w.cls);
-    const Value g = refv::from_sd(w.sd);
-    OK(k, g == v, "value-differs-" + tag, "value built by " + w.name, refv::str(g), refv::str(v));
+    const auto& w = ways[wi]; const char tag[2] = { w.cls, 0 };
     OK(k, w.sd.IsElement() == v.isElem() && w.sd.IsTuple() == v.isTuple() && w.sd.IsCollection() == v.isSet(), "structure-flags", "IsElement/IsTuple/IsCollection for " + w.name);
     // equality across constructions, both argument orders
     OK(k, w.sd == w0 && w0 == w.sd, "eq-across-constructions", w.name + " == canonical build", "false", "true");
-    OK(k, !(w.sd != w0) && !(w0 != w.sd), "eq-across-constructions", w.name + " != canonical build", "true", "false");
+    OK(k, !(w.sd != w0), "eq-across-constructions", w.name + " != canonical build", "true", "false");
     OK(k, !(w.sd < w0) && !(w0 < w.sd), "lt-between-equal", "a < b holds for equal values (" + w.name + ")", "true", "false");
-    OK(k, w.sd.Compare(w0) == Comparison::EQUAL && w0.Compare(w.sd) == Comparison::EQUAL, "compare-equal", "Compare of equal values (" + w.name + ")", cmpstr(w.sd.Compare(w0)), "EQUAL");
-    if (wi + 1 < ways.size()) OK(k, w.sd == ways[wi + 1].sd && ways[wi + 1].sd == w.sd && !(w.sd < ways[wi + 1].sd) && !(ways[wi + 1].sd < w.sd), "eq-across-constructions", w.name + " vs " + ways[wi + 1].name);
-    { const StructuredData copy = w.sd; OK(k, copy == w.sd && !(copy < w.sd) && w.sd == w.sd, "eq-reflexive", "copy == original"); }
-    if (v.isTuple()) {
-      OK(k, w.sd.T().Arity() == static_cast<int>(v.items.size()), "tuple-arity", "Arity");
-      for (size_t ci = 0; ci < v.items.size(); ++ci) { const Value cg = refv::from_sd(w.sd.T().Component(static_cast<ccl::rslang::Index>(ci + 1))); OK(k, cg == v.items[ci], "tuple-component", "Component(" + std::to_string(ci + 1) + ")", refv::str(cg), refv::str(v.items[ci])); }
+    OK(k, w.sd.Compare(w0) == Comparison::EQUAL, "compare-equal", "Compare of equal values (" + w.name + ")", cmpstr(w.sd.Compare(w0)), "EQUAL");
+    if (wi + 1 < ways.size() && wi > 0) OK(k, w.sd == ways[wi + 1].sd && !(ways[wi + 1].sd < w.sd), "eq-across-constructions", w.name + " vs " + ways[wi + 1].name);
+    if (wi == 0 || w.cls == 'l' || w.cls == 'a') { const StructuredData copy = w.sd; OK(k, copy == w.sd && !(copy < w.sd) && w.sd == w.sd, "eq-reflexive", "copy == original"); }
+    if (!v.isSet()) {
+      const Value g = refv::from_sd(w.sd);
+      OK(k, g == v, std::string("value-differs-") + tag, "value built by " + w.name, refv::str(g), refv::str(v));
+      if (v.isTuple()) {
+        OK(k, w.sd.T().Arity() == static_cast<int>(v.items.size()), "tuple-arity", "Arity");
+        for (size_t ci = 0; ci < v.items.size(); ++ci) { const Value cg = refv::from_sd(w.sd.T().Component(static_cast<ccl::rslang::Index>(ci + 1))); OK(k, cg == v.items[ci], "tuple-component", "Component(" + std::to_string(ci + 1) + ")", refv::str(cg), refv::str(v.items[ci])); }
+      }
+      continue;
     }
-    if (!v.isSet()) continue;
     const SDSet& s = w.sd.B();
     OK(k, s.Cardinality() == static_cast<int>(v.items.size()), "cardinality", "Cardinality of " + w.name, std::to_string(s.Cardinality()), std::to_string(v.items.size()));
     OK(k, s.IsEmpty() == v.items.empty(), "isempty", "IsEmpty of " + w.name);
     const auto seq = refv::iterate(s);
-    { // every element exactly once
+    { // every element exactly once, and exactly the elements of the value
       auto sorted = seq; std::sort(sorted.begin(), sorted.end());
       const bool dup = std::adjacent_find(sorted.begin(), sorted.end()) != sorted.end();
       OK(k, !dup, "iteration-repeats", "iteration of " + w.name + " yields an element twice");
-      OK(k, seq.size() == v.items.size() && sorted == v.items, "iteration-elements", "iteration of " + w.name + " does not yield exactly the elements", std::to_string(seq.size()) + " items", refv::str(v));
+      sorted.erase(std::unique(sorted.begin(), sorted.end()), sorted.end());
+      OK(k, sorted == v.items, std::string("value-differs-") + tag, "value built by " + w.name + " (by iteration)", std::to_string(seq.size()) + " items", refv::str(v));
+      OK(k, seq.size() == v.items.size(), "iteration-elements", "iteration of " + w.name + " yields " + std::to_string(seq.size()) + " items for a set of " + std::to_string(v.items.size()));
     }
     if (wi == 0) {
       seq0 = seq;
       // the order used inside the set agrees with operator< of the library on consecutive elements
       std::vector<StructuredData> items; for (auto it = s.begin(); it != s.end(); ++it) items.push_back(*it);
       for (size_t a = 0; a + 1 < items.size(); ++a) OK(k, items[a] < items[a + 1] && !(items[a + 1] < items[a]), "iteration-not-ascending", "consecutive elements of an enumerated set are not ascending by operator<");
-    } else OK(k, seq == seq0, "iteration-order-differs-" + tag, "iteration order of " + w.name + " differs from the enumerated set", std::to_string(seq.size()), std::to_string(seq0.size()));
+    } else OK(k, seq == seq0, std::string("iteration-order-differs-") + tag, "iteration order of " + w.name + " differs from the enumerated set", std::to_string(seq.size()), std::to_string(seq0.size()));
     // membership over the whole element universe
     if (w.cls == 'c' || w.cls == 'a' || w.cls == 'l' || w.cls == 'w')
       for (size_t e = 0; e < u.elems.size(); ++e) {
         const bool exp = refv::contains(v, u.elems[e]);
-        const bool got1 = s.Contains(refv::to_sd(u.elems[e])), got2 = s.Contains(alt_sd(u.elems[e]));
-        OK(k, got1 == exp && got2 == exp, "contains-" + tag, "Contains(" + refv::str(u.elems[e]) + ") on " + w.name, bstr(got1) + "/" + bstr(got2), bstr(exp));
+        const bool got1 = s.Contains(uc.elemSd[e]), got2 = s.Contains(uc.elemAlt[e]);
+        OK(k, got1 == exp, std::string("contains-") + tag, "Contains(" + refv::str(u.elems[e]) + ") on " + w.name, bstr(got1), bstr(exp));
+        // the element in its other (possibly lazy) representation; a FALSE POSITIVE of a lazy set on a lazily represented element is the
+        // shape of the IsSubsetOrEq defect (SDPowerSet::Contains is element.IsSubsetOrEq(base)) and gets that defect's signature
+        OK(k, got2 == exp, (got2 && !exp && w.cls == 'l') ? std::string("subset-false-positive-lazy-operand") : std::string("contains-") + tag + "-altelem", "Contains(other representation of " + refv::str(u.elems[e]) + ") on " + w.name, bstr(got2), bstr(exp));
       }
   }
   if (!v.isSet()) return;
@@ -250,27 +257,27 @@ void check_unary(Ctx& c, const Universe& u, size_t i, int maxPerm, int boolMax) 
   const auto& et = u.type.kids[0];
   for (const auto& w : ways) {
     if (!(w.cls == 'c' || w.cls == 'a' || w.cls == 'l')) continue;
-    const SDSet& s = w.sd.B(); const std::string on = " on " + w.name;
-    SAME(k, Factory::Singleton(w.sd), refv::singleton(v), "singleton", "Singleton" + on);
-    if (v.items.size() == 1) SAME(k, s.Debool(), refv::debool(v), "debool", "Debool" + on);
-    if (et.kind == refv::Type::Kind::Bool) SAME(k, s.Reduce(), refv::reduce(v), "reduce", "Reduce" + on);
+    const SDSet& s = w.sd.B();
+    SAME(k, Factory::Singleton(w.sd), refv::singleton(v), nullptr, "singleton", "Singleton on " + w.name);
+    if (v.items.size() == 1) SAME(k, s.Debool(), refv::debool(v), nullptr, "debool", "Debool on " + w.name);
+    if (et.kind == refv::Type::Kind::Bool) SAME(k, s.Reduce(), refv::reduce(v), nullptr, "reduce", "Reduce on " + w.name);
     if (et.kind == refv::Type::Kind::Tuple) {
       const int m = static_cast<int>(et.kids.size());
       std::vector<std::vector<int>> lists;
       for (int a = 1; a <= m; ++a) { lists.push_back({ a }); for (int b = 1; b <= m; ++b) lists.push_back({ a, b }); }
       if (m == 3) { lists.push_back({ 1, 2, 3 }); lists.push_back({ 3, 2, 1 }); }
       for (const auto& l : lists) {
-        std::vector<ccl::rslang::Index> li; std::string ls; for (int x : l) { li.push_back(static_cast<ccl::rslang::Index>(x)); ls += std::to_string(x); }
-        SAME(k, s.Projection(li), refv::projection(v, l), "projection", "Projection{" + ls + "}" + on);
+        std::vector<ccl::rslang::Index> li; for (int x : l) li.push_back(static_cast<ccl::rslang::Index>(x));
+        SAME(k, s.Projection(li), refv::projection(v, l), nullptr, "projection", "Projection{" + std::to_string(l[0]) + (l.size() > 1 ? "," + std::to_string(l[1]) : "") + (l.size() > 2 ? ",.." : "") + "} on " + w.name);
       }
     }
     if (static_cast<int>(v.items.size()) <= boolMax) {
       const Value pm = refv::powerset(v);
       const auto P = Factory::Boolean(w.sd);
-      SAME(k, P, pm, "boolean", "Boolean" + on);
-      OK(k, P.B().Cardinality() == static_cast<int>(pm.items.size()), "boolean-cardinality", "Cardinality of Boolean" + on, std::to_string(P.B().Cardinality()), std::to_string(pm.items.size()));
-      const auto seqLazy = refv::iterate(P.B()); const auto seqEnum = refv::iterate(refv::to_sd(pm).B());
-      OK(k, seqLazy == seqEnum, "boolean-iteration-order", "power set iterates in a different order than the enumerated set of the same elements");
+      const auto Penum = refv::to_sd(pm);
+      SAME(k, P, pm, &Penum, "boolean", "Boolean on " + w.name);
+      OK(k, P.B().Cardinality() == static_cast<int>(pm.items.size()), "boolean-cardinality", "Cardinality of Boolean on " + w.name, std::to_string(P.B().Cardinality()), std::to_string(pm.items.size()));
+      OK(k, refv::iterate(P.B()) == refv::iterate(Penum.B()), "boolean-iteration-order", "power set iterates in a different order than the enumerated set of the same elements");
       for (const auto& sub : pm.items) OK(k, P.B().Contains(refv::to_sd(sub)), "boolean-contains", "Boolean.Contains(subset)");
       for (const auto& e : u.elems) if (!refv::contains(v, e)) { OK(k, !P.B().Contains(refv::to_sd(refv::singleton(e))), "boolean-contains", "Boolean.Contains({x}) for x outside the base", "true", "false"); break; }
       auto Pm = P; OK(k, !Pm.ModifyB().AddElement(Factory::EmptySet()) && refv::from_sd(Pm) == pm && refv::from_sd(P) == pm, "lazy-addelement", "AddElement on a power set must be refused and change nothing");
@@ -280,54 +287,51 @@ void check_unary(Ctx& c, const Universe& u, size_t i, int maxPerm, int boolMax) 
 
 // ------------------------------------------------------------------------------------------------
 // binary battery for values i, j of universe u
-struct Reps { std::vector<std::pair<char, StructuredData>> r; };
-Reps reps_of(const Value& v) {
-  Reps x; x.r.emplace_back('c', refv::to_sd(v));
-  if (v.isSet()) { if (auto l = lazy_sd(v, false); l.has_value()) x.r.emplace_back('l', *l); else if (v.items.size() >= 2) x.r.emplace_back('a', alt_sd(v)); }
-  else if (v.isTuple()) x.r.emplace_back('a', alt_sd(v));
-  return x;
-}
-
-void check_pair(Ctx& c, const Universe& u, size_t i, size_t j, const Value& a, const Value& b, const Reps& ra, const Reps& rb, bool fullOps, int prodMax) {
+void check_pair(Ctx& c, const Universe& u, size_t i, size_t j, const Value& a, const Value& b, const Reps& ra, const Reps& rb, int prodMax, const UCache& uc) {
   Checker k{ c };
   const bool eq = i == j;
   for (const auto& [ca, A] : ra.r) for (const auto& [cb, B] : rb.r) {
-    const std::string reps = std::string(1, ca) + std::string(1, cb);
+    const char reps[3] = { ca, cb, 0 };
     const bool e1 = A == B, e2 = B == A, n1 = A != B, l1 = A < B, l2 = B < A;
-    OK(k, e1 == eq && e2 == eq, "eq-vs-canonical-" + reps, "a == b must hold exactly when the canonical forms are equal", bstr(e1) + "/" + bstr(e2), bstr(eq));
+    OK(k, e1 == eq && e2 == eq, std::string("eq-vs-canonical-") + reps, "a == b must hold exactly when the canonical forms are equal; b=" + refv::str(b), bstr(e1) + "/" + bstr(e2), bstr(eq));
     OK(k, n1 == !e1, "neq-not-negation", "a != b is not the negation of a == b");
-    OK(k, !(l1 && l2), "lt-asymmetric", "a < b and b < a both hold");
-    OK(k, eq ? (!l1 && !l2) : (l1 || l2), "lt-total-consistent", eq ? "a < b holds for equal values" : "neither a < b nor b < a for different values of one type");
-    const auto cab = A.Compare(B), cba = B.Compare(A);
-    OK(k, (cab == Comparison::EQUAL) == e1 && (cab == Comparison::LESS) == l1 && (cba == Comparison::LESS) == l2 && cab != Comparison::INCOMPARABLE, "compare-consistent", "Compare disagrees with == / <", cmpstr(cab) + "/" + cmpstr(cba));
+    OK(k, !(l1 && l2), "lt-asymmetric", "a < b and b < a both hold; b=" + refv::str(b));
+    OK(k, eq ? (!l1 && !l2) : (l1 || l2), "lt-total-consistent", (eq ? "a < b holds for equal values" : "neither a < b nor b < a for different values of one type; b=") + refv::str(b));
+    const auto cab = A.Compare(B);
+    OK(k, (cab == Comparison::EQUAL) == e1 && (cab == Comparison::LESS) == l1 && (cab == Comparison::GREATER) == l2, "compare-consistent", "Compare disagrees with == / <; b=" + refv::str(b), cmpstr(cab));
     if (!a.isSet()) continue;
     const SDSet& sa = A.B(); const SDSet& sb = B.B();
-    const bool sub = sa.IsSubsetOrEq(sb);
     {
-      const bool exp = refv::subseteq(a, b);
+      const bool sub = sa.IsSubsetOrEq(sb), exp = refv::subseteq(a, b);
       // witness shape of a known defect gets its own signature: lazy left operand whose FIRST element is missing from the right operand
+      // (reached directly, or through SDPowerSet::Contains when lazily represented sets are elements of the operands: then only the
+      //  direction of the error — a false positive with a non-enumerated operand — can be recognised)
       const bool firstMissing = ca == 'l' && sub && !exp && !refv::contains(b, a.items[0]);
-      OK(k, sub == exp, firstMissing ? "subset-lazy-lhs-first-element-missing" : "subset-" + reps, "IsSubsetOrEq (" + reps + ") b=" + refv::str(b), bstr(sub), bstr(exp));
+      const bool falsePositiveLazy = sub && !exp && (ca != 'c' || cb != 'c');
+      OK(k, sub == exp, firstMissing ? std::string("subset-lazy-lhs-first-element-missing") : falsePositiveLazy ? std::string("subset-false-positive-lazy-operand") : std::string("subset-") + reps,
+         std::string("IsSubsetOrEq (") + reps + ") b=" + refv::str(b), bstr(sub), bstr(exp));
     }
-    if (!fullOps && !(ca == 'c' && cb == 'c')) continue;
-    SAME(k, sa.Union(sb), refv::unite(a, b), "union", "Union (" + reps + ")");
-    SAME(k, sa.Intersect(sb), refv::intersect(a, b), "intersect", "Intersect (" + reps + ")");
-    SAME(k, sa.Diff(sb), refv::diff(a, b), "diff", "Diff (" + reps + ")");
-    SAME(k, sa.SymDiff(sb), refv::symdiff(a, b), "symdiff", "SymDiff (" + reps + ")");
+    if (!((ca == 'c' && cb == 'c') || (ca == 'l' && cb == 'c') || (ca == 'c' && cb == 'l'))) continue;   // operations: enumerated x enumerated, lazy x enumerated, enumerated x lazy
+    { const Value m = refv::unite(a, b); SAME(k, sa.Union(sb), m, uc.canon_of(m), "union", std::string("Union (") + reps + ") b=" + refv::str(b)); }
+    { const Value m = refv::intersect(a, b); SAME(k, sa.Intersect(sb), m, uc.canon_of(m), "intersect", std::string("Intersect (") + reps + ") b=" + refv::str(b)); }
+    { const Value m = refv::diff(a, b); SAME(k, sa.Diff(sb), m, uc.canon_of(m), "diff", std::string("Diff (") + reps + ") b=" + refv::str(b)); }
+    { const Value m = refv::symdiff(a, b); SAME(k, sa.SymDiff(sb), m, uc.canon_of(m), "symdiff", std::string("SymDiff (") + reps + ") b=" + refv::str(b)); }
     if (ca == 'c' && cb == 'c' && static_cast<int>(a.items.size() * b.items.size()) <= prodMax) {
       const Value pm = refv::product({ a, b });
       const auto D = Factory::Decartian({ A, B });
-      SAME(k, D, pm, "decartian", "Decartian({a,b})");
-      OK(k, D.B().Cardinality() == static_cast<int>(pm.items.size()), "decartian-cardinality", "Cardinality of Decartian", std::to_string(D.B().Cardinality()), std::to_string(pm.items.size()));
-      OK(k, refv::iterate(D.B()) == refv::iterate(refv::to_sd(pm).B()), "decartian-iteration-order", "product iterates in a different order than the enumerated set of the same tuples");
-      if (!pm.items.empty() && u.elems.size() <= 16)
-        for (const auto& x : u.elems) for (const auto& y : u.elems) {
+      const auto Denum = refv::to_sd(pm);
+      SAME(k, D, pm, &Denum, "decartian", "Decartian({a,b}) b=" + refv::str(b));
+      OK(k, D.B().Cardinality() == static_cast<int>(pm.items.size()), "decartian-cardinality", "Cardinality of Decartian, b=" + refv::str(b), std::to_string(D.B().Cardinality()), std::to_string(pm.items.size()));
+      OK(k, refv::iterate(D.B()) == refv::iterate(Denum.B()), "decartian-iteration-order", "product iterates in a different order than the enumerated set of the same tuples");
+      if (!pm.items.empty()) {   // membership: every tuple over (a + one outsider) x (b + one outsider)
+        auto withOutsider = [&](const Value& s) { std::vector<Value> v = s.items; for (const auto& e : u.elems) if (!refv::contains(s, e)) { v.push_back(e); break; } return v; };
+        for (const auto& x : withOutsider(a)) for (const auto& y : withOutsider(b)) {
           const Value t = refv::Tuple({ x, y });
           OK(k, D.B().Contains(refv::to_sd(t)) == refv::contains(pm, t), "decartian-contains", "Decartian.Contains" + refv::str(t), "", bstr(refv::contains(pm, t)));
         }
+      }
     }
   }
-  (void)u;
 }
 
 std::string relation_class(const Value& a, const Value& b) {
@@ -356,102 +360,120 @@ void check_order(Ctx& c, const Universe& u) {
     for (size_t j = 0; j < n; ++j) {
       if (i != j && lt[i][j] == lt[j][i]) OK(k, false, lt[i][j] ? "lt-asymmetric" : "lt-total-consistent", "a=" + refv::str(u.value(i)) + " b=" + refv::str(u.value(j)));
       if (!lt[i][j]) continue;
-      for (size_t l = 0; l < n; ++l) { ++triples; if (lt[j][l] && !lt[i][l]) { if (bad++ < 3) OK(k, false, "lt-transitive", "a<b, b<c but not a<c: a=" + refv::str(u.value(i)) + " b=" + refv::str(u.value(j)) + " c=" + refv::str(u.value(l))); } }
+      const char* rj = lt[j].data(); const char* ri = lt[i].data();
+      for (size_t l = 0; l < n; ++l) if (rj[l] && !ri[l]) { if (bad++ < 3) OK(k, false, "lt-transitive", "a<b, b<c but not a<c: a=" + refv::str(u.value(i)) + " b=" + refv::str(u.value(j)) + " c=" + refv::str(u.value(l))); }
+      triples += n;
     }
   }
-  c.rep.count("checks", triples + n * n * 2);
+  k.n += triples + n * n * 2;
   c.rep.count("order_triples", triples);
   // informative only: does the library order coincide with the reference order (size, then lexicographic)?
   bool sameAsRef = true; for (size_t i = 0; i < n && sameAsRef; ++i) for (size_t j = 0; j < n; ++j) if ((lt[i][j] != 0) != (i < j)) { sameAsRef = false; break; }
   c.rep.outcome(sameAsRef ? "order:same-as-reference" : "order:other-total-order");
 }
 
-struct AlgebraCfg { int maxPerm, boolMax, prodMax, nTypes3; bool with4; int bigMode; /*0 none, 1 probes, 2 all pairs compare + probes ops*/ int bigUnaryStride; };
+struct AlgebraCfg {
+  int maxPerm, boolMax, prodMax;
+  int bigUnary;                              // margin m: unary battery on values of the big universe with <= m or >= max-m members (16 = all)
+  std::vector<std::pair<int, int>> bigPairs; // (mA, mJ): every value of margin mA against every value of margin mJ
+  int bigOrder;                              // margin of the sub-universe on which == / < are checked for ALL ordered pairs
+};
+
+std::vector<size_t> margin_set(const Universe& u, int m) {
+  std::vector<size_t> v; const int top = static_cast<int>(u.elems.size());
+  for (size_t j = 0; j < u.n; ++j) { const int k = static_cast<int>(u.subs[j].size()); if (k <= m || k >= top - m) v.push_back(j); }
+  return v;
+}
 
 void run_algebra(Ctx& c, const std::vector<Universe>& us, const AlgebraCfg& cfg) {
+  UCache uc;
   for (const auto& u : us) {
     if (c.stop()) return;
     // (1) order laws, one case per small universe
     if (!u.big() && u.n <= 512) {
-      if (c.take()) { const double t = now_s(); c.begin("order-laws U=" + u.name + " n=" + std::to_string(u.n)); check_order(c, u); c.rep.count("evaluations"); c.done(); c.rep.count("ms_order", static_cast<uint64_t>((now_s() - t) * 1000)); }
+      if (c.take()) { c.begin("order-laws U=" + u.name + " n=" + std::to_string(u.n)); check_order(c, u); c.rep.count("evaluations"); c.done(); }
     }
     // (2) unary battery
-    for (size_t i = 0; i < u.n; ++i) {
-      if (u.big() && cfg.bigUnaryStride > 1 && i % static_cast<size_t>(cfg.bigUnaryStride) != 0 && i + 300 < u.n && i > 300) { continue; }
-      if (!c.take()) continue;
-      const Value v = u.value(i);
-      const std::string d = "unary U=" + u.name + " i=" + std::to_string(i) + " v=" + refv::str(v);
-      c.begin(d); const double tcase = now_s();
-      check_unary(c, u, i, cfg.maxPerm, cfg.boolMax);
-      c.rep.count("evaluations");
-      const bool nt = (v.isSet() && v.items.size() >= 2) || v.isTuple();
-      if (nt) c.rep.count("nontrivial");
-      c.rep.outcome(std::string("unary:") + (v.isElem() ? "elem" : v.isTuple() ? "tuple" : lazy_sd(v, false).has_value() ? "set-with-lazy-form" : v.items.empty() ? "empty-set" : "enumerated-set"));
-      if (c.idx % 4099 == 1) c.rep.sample(d);
-      c.done(); c.rep.count("us_unary" + std::string(u.big() ? "_big" : ""), static_cast<uint64_t>((now_s() - tcase) * 1e6));
+    {
+      std::vector<size_t> sel; if (u.big()) sel = margin_set(u, cfg.bigUnary); else { sel.resize(u.n); std::iota(sel.begin(), sel.end(), size_t{ 0 }); }
+      for (size_t i : sel) {
+        if (!c.take()) continue;
+        const Value v = u.value(i);
+        const std::string d = "unary U=" + u.name + " i=" + std::to_string(i) + " v=" + refv::str(v);
+        c.begin(d); const double tcase = now_s();
+        check_unary(c, u, i, cfg.maxPerm, cfg.boolMax, uc);
+        c.rep.count("evaluations");
+        if ((v.isSet() && v.items.size() >= 2) || v.isTuple()) c.rep.count("nontrivial");
+        c.rep.outcome(std::string("unary:") + (v.isElem() ? "elem" : v.isTuple() ? "tuple" : lazy_sd(v, false).has_value() ? "set-with-lazy-form" : v.items.empty() ? "empty-set" : "enumerated-set"));
+        if (c.idx % 4099 == 1) c.rep.sample(d);
+        c.done(); c.rep.count(u.big() ? "us_unary_big" : "us_unary", static_cast<uint64_t>((now_s() - tcase) * 1e6));
+      }
     }
     // (3) binary battery
     if (!u.big()) {
-      std::vector<Reps> reps;   // per worker, built on first use inside a case
-      const size_t blk = 256;
+      const size_t blk = 128;
       for (size_t i = 0; i < u.n; ++i) for (size_t j0 = 0; j0 < u.n; j0 += blk) {
         if (!c.take()) continue;
         const Value a = u.value(i);
         const std::string d = "pairs U=" + u.name + " i=" + std::to_string(i) + " a=" + refv::str(a) + " j=" + std::to_string(j0) + ".." + std::to_string(std::min(u.n, j0 + blk) - 1);
         c.begin(d); const double tcase = now_s();
-        if (reps.empty()) for (size_t x = 0; x < u.n; ++x) reps.push_back(reps_of(u.value(x)));
+        uc.all(u);
         for (size_t j = j0; j < std::min(u.n, j0 + blk); ++j) {
-          const Value b = u.value(j);
-          check_pair(c, u, i, j, a, b, reps[i], reps[j], true, cfg.prodMax);
+          const Value& b = u.vals[j];
+          check_pair(c, u, i, j, a, b, uc.reps[i], uc.reps[j], cfg.prodMax, uc);
           c.rep.count("evaluations");
           if (i != j && (!a.isSet() || (!a.items.empty() && !b.items.empty()))) c.rep.count("nontrivial");
           c.rep.outcome("pair:" + std::string(a.isSet() ? "set:" : a.isTuple() ? "tuple:" : "elem:") + relation_class(a, b));
         }
         if (c.idx % 1201 == 1) c.rep.sample(d);
-        c.done(); c.rep.count("us_pairs" + std::string(u.big() ? "_big" : ""), static_cast<uint64_t>((now_s() - tcase) * 1e6));
+        c.done(); c.rep.count("us_pairs", static_cast<uint64_t>((now_s() - tcase) * 1e6));
       }
-    } else if (cfg.bigMode > 0) {
-      // universe too large for all pairs x all operations: every value a against the probe set J = values with <= 2 or >= |elems|-2 members
-      std::vector<size_t> J; for (size_t j = 0; j < u.n; ++j) if (u.subs[j].size() <= 2 || u.subs[j].size() + 2 >= u.elems.size()) J.push_back(j);
-      std::vector<Reps> jreps;
-      for (size_t i = 0; i < u.n; ++i) {
-        if (!c.take()) continue;
-        const Value a = u.value(i);
-        const std::string d = "pairs U=" + u.name + " i=" + std::to_string(i) + " a=" + refv::str(a) + " vs " + std::to_string(J.size()) + " probe values";
-        c.begin(d); const double tcase = now_s();
-        if (jreps.empty()) for (size_t j : J) jreps.push_back(reps_of(u.value(j)));
-        const Reps ra = reps_of(a);
-        for (size_t q = 0; q < J.size(); ++q) {
-          const Value b = u.value(J[q]);
-          check_pair(c, u, i, J[q], a, b, ra, jreps[q], false, 0);
-          c.rep.count("evaluations");
-          if (i != J[q] && !a.items.empty() && !b.items.empty()) c.rep.count("nontrivial");
-          if (q % 16 == 0) c.rep.outcome("pair:set:" + relation_class(a, b));
-        }
-        if (c.idx % 9973 == 1) c.rep.sample(d);
-        c.done(); c.rep.count("us_pairs" + std::string(u.big() ? "_big" : ""), static_cast<uint64_t>((now_s() - tcase) * 1e6));
-      }
-      if (cfg.bigMode >= 2) {
-        // all ordered pairs: equality and order laws only; transitivity follows from agreement with the reference order
-        const size_t blk = 4096;
-        for (size_t i = 0; i < u.n; ++i) {
+    } else {
+      // universe too large for all pairs x all operations: margin classes (values with <= m or >= max-m members)
+      for (const auto& [mA, mJ] : cfg.bigPairs) {
+        const auto Aset = margin_set(u, mA), J = margin_set(u, mJ);
+        std::vector<Reps> jreps;
+        for (size_t i : Aset) {
           if (!c.take()) continue;
           const Value a = u.value(i);
-          c.begin("order-all-pairs U=" + u.name + " i=" + std::to_string(i) + " a=" + refv::str(a));
-          Checker k{ c };
-          const auto A = refv::to_sd(a);
-          uint64_t diffRef = 0;
-          for (size_t j0 = 0; j0 < u.n; j0 += blk) for (size_t j = j0; j < std::min(u.n, j0 + blk); ++j) {
-            std::vector<StructuredData> el; for (int x : u.subs[j]) el.push_back(refv::to_sd(u.elems[static_cast<size_t>(x)]));
-            const auto B = Factory::Set(el);
-            const bool e = A == B, l1 = A < B, l2 = B < A;
-            if (e != (i == j)) OK(k, false, "eq-vs-canonical-cc", "== disagrees with canonical forms, b=" + refv::str(u.value(j)), bstr(e), bstr(i == j));
-            if (l1 && l2) OK(k, false, "lt-asymmetric", "b=" + refv::str(u.value(j)));
-            if ((i == j) ? (l1 || l2) : !(l1 || l2)) OK(k, false, "lt-total-consistent", "b=" + refv::str(u.value(j)));
-            if (l1 != (i < j)) ++diffRef;
+          const std::string d = "pairs U=" + u.name + " i=" + std::to_string(i) + " a=" + refv::str(a) + " vs the " + std::to_string(J.size()) + " values with <=" + std::to_string(mJ) + " or >=max-" + std::to_string(mJ) + " members";
+          c.begin(d); const double tcase = now_s();
+          uc.elems(u);
+          if (jreps.empty()) for (size_t j : J) jreps.push_back(reps_of(u.value(j)));
+          const Reps ra = reps_of(a);
+          for (size_t q = 0; q < J.size(); ++q) {
+            const Value b = u.value(J[q]);
+            check_pair(c, u, i, J[q], a, b, ra, jreps[q], 0, uc);
+            c.rep.count("evaluations");
+            if (i != J[q] && !a.items.empty() && !b.items.empty()) c.rep.count("nontrivial");
+            if (q % 16 == 0) c.rep.outcome("pair:set:" + relation_class(a, b));
           }
-          if (diffRef != 0) OK(k, false, "lt-differs-from-reference-order", "operator< is not the size-then-lexicographic order on " + std::to_string(diffRef) + " partners (transitivity over this universe is derived from that agreement)");
-          c.rep.count("checks", u.n * 3); c.rep.count("evaluations", u.n); c.rep.count("nontrivial", u.n - 1);
+          if (c.idx % 9973 == 1) c.rep.sample(d);
+          c.done(); c.rep.count("us_pairs_big", static_cast<uint64_t>((now_s() - tcase) * 1e6));
+        }
+      }
+      if (cfg.bigOrder >= 0) {
+        // == and < over ALL ordered pairs of a margin class; one case per row. Irreflexivity, asymmetry, totality and consistency with ==
+        // are asserted directly; transitivity over this class is derived from agreement with the reference order (size, then
+        // lexicographic — the order upstream's SetOrdering test exercises); a disagreement is reported under its own signature.
+        const auto S = margin_set(u, cfg.bigOrder);
+        std::vector<StructuredData> sd;
+        for (size_t r = 0; r < S.size(); ++r) {
+          if (!c.take()) continue;
+          const size_t i = S[r];
+          c.begin("order-row U=" + u.name + " i=" + std::to_string(i) + " a=" + refv::str(u.value(i)) + " vs " + std::to_string(S.size()) + " values");
+          if (sd.empty()) for (size_t j : S) sd.push_back(refv::to_sd(u.value(j)));
+          Checker k{ c };
+          uint64_t diffRef = 0;
+          for (size_t q = 0; q < S.size(); ++q) {
+            const bool e = sd[r] == sd[q], l1 = sd[r] < sd[q], l2 = sd[q] < sd[r];
+            OK(k, e == (r == q), "eq-vs-canonical-cc", "== disagrees with canonical forms, b=" + refv::str(u.value(S[q])), bstr(e), bstr(r == q));
+            OK(k, !(l1 && l2), "lt-asymmetric", "b=" + refv::str(u.value(S[q])));
+            OK(k, (r == q) ? !(l1 || l2) : (l1 || l2), "lt-total-consistent", "b=" + refv::str(u.value(S[q])));
+            if (l1 != (r < q)) ++diffRef;
+          }
+          OK(k, diffRef == 0, "lt-differs-from-reference-order", "operator< is not the size-then-lexicographic order on " + std::to_string(diffRef) + " partners (transitivity over this class is derived from that agreement)");
+          c.rep.count("evaluations", S.size()); c.rep.count("nontrivial", S.size() - 1);
           c.done();
         }
       }
@@ -543,11 +565,14 @@ struct VSys {
   // exact dump: value, representation, pointer-sharing classes and use counts of handles and of the elements they contain
   std::string key(const Obj& o) {
     std::string s;
+    // observing a lazy set fills its cache (and raises the use counts of the base's elements): observe everything first so that the
+    // dump does not depend on the order in which the handles are visited (the caches here never reach the eviction limit)
+    Value seen[3]; for (int i = 0; i < 3; ++i) seen[i] = refv::from_sd(o.h[i]);
     auto who = [&](const StructuredData& d) { for (int i = 0; i < 3; ++i) if (o.h[i].data == d.data) return std::to_string(i); return std::string("-"); };
     for (int i = 0; i < 3; ++i) {
       const auto* impl = o.h[i].B().impl.get();
       const auto* ps = dynamic_cast<const ob::SDPowerSet*>(impl);
-      s += "h" + std::to_string(i) + "[lvl" + std::to_string(o.lvl[i]) + (o.lazy[i] ? "L" : "E") + " m=" + refv::str(o.m[i]) + " v=" + refv::str(refv::from_sd(o.h[i])) +
+      s += "h" + std::to_string(i) + "[lvl" + std::to_string(o.lvl[i]) + (o.lazy[i] ? "L" : "E") + " m=" + refv::str(o.m[i]) + " v=" + refv::str(seen[i]) +
            " alias=" + who(o.h[i]) + " uc=" + std::to_string(o.h[i].data.use_count());
       if (ps != nullptr) {
         std::vector<uint32_t> ck; for (const auto& [idx, val] : ps->cachedElements) ck.push_back(idx); std::sort(ck.begin(), ck.end());
@@ -678,16 +703,16 @@ int main(int argc, char** argv) {
     cfg.maxPerm = static_cast<int>(opt.num("maxperm", opt.thorough() ? 5 : 4));
     cfg.boolMax = static_cast<int>(opt.num("boolmax", opt.thorough() ? 5 : 4));
     cfg.prodMax = static_cast<int>(opt.num("prodmax", opt.thorough() ? 36 : 16));
-    cfg.nTypes3 = static_cast<int>(opt.num("types3", opt.thorough() ? 8 : 6));
-    cfg.with4 = opt.num("with4", opt.thorough() ? 1 : 0) != 0;
-    cfg.bigMode = static_cast<int>(opt.num("big", opt.thorough() ? 2 : 1));
-    cfg.bigUnaryStride = static_cast<int>(opt.num("bigstride", 1));
-    const auto us = make_universes(cfg.nTypes3, cfg.with4);
+    cfg.bigUnary = static_cast<int>(opt.num("bigunary", opt.thorough() ? 16 : 3));
+    cfg.bigOrder = static_cast<int>(opt.num("bigorder", opt.thorough() ? 3 : 2));
+    const std::string bp = opt.str("bigpairs", opt.thorough() ? "16:0,3:1,2:2" : "2:1");
+    { std::istringstream is(bp); std::string t; while (std::getline(is, t, ',')) { const auto p = t.find(':'); if (p != std::string::npos) cfg.bigPairs.emplace_back(atoi(t.substr(0, p).c_str()), atoi(t.substr(p + 1).c_str())); } }
+    const auto us = make_universes(opt.str("u3", opt.thorough() ? "0,1,2,3,4,5,8,9" : "0,1,2,5"), opt.str("u4", opt.thorough() ? "0,1,2,5" : ""));
     res.rep = run_sharded(opt, "algebra", [&](Ctx& c) { run_algebra(c, us, cfg); }, &ri);
     std::string ul; uint64_t total = 0; for (const auto& u : us) { ul += u.name + ":" + std::to_string(u.n) + " "; total += u.n; }
     res.alphabet = "universes (type|base size:values) " + ul;
-    res.completed_bound = std::to_string(us.size()) + " universes, " + std::to_string(total) + " values; all ordered pairs x all operations in every universe of <= 4096 values; in larger ones every value against the probe set (values with <= 2 or >= max-2 members)" +
-                          (cfg.bigMode >= 2 ? " and all ordered pairs for == / <" : "");
+    res.completed_bound = std::to_string(us.size()) + " universes, " + std::to_string(total) + " values; every value, all ordered pairs x all operations and all triples (order laws) in every universe of <= 4096 values; in B(B(B(E)))|E=2 (65536 values) "
+                          "margin classes (values with <= m or >= 16-m members): unary battery m=" + std::to_string(cfg.bigUnary) + ", pairs (mA:mJ) " + bp + ", == / < over all ordered pairs of m=" + std::to_string(cfg.bigOrder);
     res.rule = "case = one value (unary battery over every construction: all permutations for <= " + std::to_string(cfg.maxPerm) + " elements, else identity/reverse/rotations/riffle; with duplicates; incremental AddElement; alt/lazy element "
                "representations; Boolean/Decartian form when the value is a full power set/product; copy-then-modify) or one value x block of partners (==, !=, <, Compare, IsSubsetOrEq, Union, Intersect, Diff, SymDiff, Decartian in "
                "canonical x lazy/alt representations) or one universe (irreflexive/asymmetric/total/transitive over ALL triples, n <= 512); evaluations = values + ordered pairs; non-trivial = sets with >= 2 elements or tuples (unary), "
